@@ -845,7 +845,11 @@ def c09(sc, V):
             pending_exit[s.op[1]] = -(st & 0x7F) if (st & 0x7F) else (st >> 8) & 0xFF
             # "a worker that exits by itself … while its watcher is active yields a reap event": remembered until it shows
             wown = next((w for w in s.before.watchers if any(p[0] == s.op[1] for p in w["procs"])), None)
-            if wown is not None and wown["status"] == "active" and s.before.kernel.get(s.op[1], ("g", 0))[0] == "r":
+            # … not a worker a kill_process of the daemon is already working on (`Process.stopping`: signalled, announced by a
+            # `kill` event, popped by that kill_process when it ends): its end is the daemon's kill, not an exit "by itself"
+            being_killed = wown is not None and any(p[0] == s.op[1] and p[2] for p in wown["procs"])
+            if wown is not None and wown["status"] == "active" and s.before.kernel.get(s.op[1], ("g", 0))[0] == "r" and \
+                    not being_killed:
                 self_exit[s.op[1]] = (s.n, wown["name"])
         for l in s.lines:
             if l[0] == "spawn":
@@ -971,6 +975,15 @@ def c14(sc, V, counters=None):
                     stopped_here = any(m[0] == "ev" and m[1] == l[1] and m[2] == "stop" for m in s.lines[:i])
                     if wbefore is not None and (wbefore["status"] in ("stopped", "starting") or stopped_here) and not started_here:
                         failed_start[wn] = l[4]
+                if l[4] == "before_reap" and not s.snap.blocked:
+                    # before_reap gates nothing (its result is ignored): whatever it returned or raised, the entry is
+                    # popped, the process waited for and the `reap` event of this watcher published before the hook is
+                    # asked again (C14_reap_hooks_ungated, C09_reap_event_sequence)
+                    nxt = next((m for m in s.lines[i + 1:] if m[0] == "ev" and m[1] == l[1] and
+                                (m[2] == "reap" or (m[2] in ("hook_success", "hook_failure") and m[4] == "before_reap"))), None)
+                    if nxt is None or nxt[2] != "reap":
+                        f.append({"sig": "reap-gated-by-hook", "step": s.n,
+                                  "msg": "%s: before_reap (%s) was called, no reap event followed" % (wn, o)})
                 if l[4] == "before_signal":
                     nxt = s.lines[i + 1] if i + 1 < len(s.lines) else None
                     # "that signal": the one to the worker the hook was asked about — a following signal to a
